@@ -21,12 +21,22 @@ from __future__ import annotations
 
 import numpy as np
 
+# classes whose configurations may legitimately yield no operator presented as linear (then nothing is to be checked)
+OPTIONAL_CLASSES = {"CalculusMixed"}
+
+
+class NotPresentedAsLinear(Exception):
+    """the construction returned an object that is not a LinearOperator: nothing to check for C06"""
+
+
 EXTRA_CLASSES = [
     "Derived",  # LinearOperator.__add__/__sub__/__mul__/__truediv__/__call__ closures
     "Jacobian",  # linop.jacobian(F, u)
     "TVNormAux",  # TVNorm._prox_operators: WP, CWT
     "DiagonalReplicatedPmap",
     "GenericLinearOperator",  # LinearOperator(eval_fn=..., adj_fn=...)
+    "MixedDtype",  # real-valued parameters (filter, diagonal, matrix, scalar) with a complex input dtype
+    "CalculusMixed",  # results of operator arithmetic between a LinearOperator and a non-linear Operator
 ]
 
 
@@ -56,6 +66,15 @@ def _extra_grid(name, rng):
         return out
     if name == "DiagonalReplicatedPmap":
         return [{"shape": [3], "dtype": "float64"}]
+    if name == "MixedDtype":
+        return [{"kind": k, "shape": [4], "dtype": "complex128"} for k in
+                ("circconv", "circconv_center", "convolve", "convolvebyx", "diagonal", "scaledidentity", "matrix_compose", "fd", "sum", "generic_matmul")]
+    if name == "CalculusMixed":
+        out = []
+        for left in ("matrix", "diagonal", "identity", "circconv", "fd", "generic"):
+            for opn in ("add", "sub", "radd", "rsub", "compose", "rcompose"):
+                out.append({"left": left, "op": opn, "nonlinear": "abs", "shape": [4], "dtype": "float64"})
+        return out
     if name == "GenericLinearOperator":
         return [
             {"kind": "roll", "shape": [5], "dtype": "float64", "adj": True},
@@ -151,6 +170,62 @@ def build(name, c):
     if name == "DiagonalReplicatedPmap":
         op = linop.SingleAxisFiniteDifference(shape, input_dtype=dt, axis=0, circular=True)
         return linop.DiagonalReplicated(op, 1, map_type="pmap")
+    if name == "MixedDtype":
+        n = shape[0]
+        hr = jnp.asarray(np.array([1.0, -0.5, 0.25]))  # real filter
+        k = c["kind"]
+        if k == "circconv":
+            return linop.CircularConvolve(hr, shape, input_dtype=dt)
+        if k == "circconv_center":
+            return linop.CircularConvolve(hr, shape, input_dtype=dt, h_center=1)
+        if k == "convolve":
+            return linop.Convolve(hr, shape, input_dtype=dt, mode="same")
+        if k == "convolvebyx":
+            return linop.ConvolveByX(hr, shape, input_dtype=dt, mode="full")
+        if k == "diagonal":
+            return linop.Diagonal(jnp.asarray(np.arange(1.0, n + 1)), input_dtype=dt)
+        if k == "scaledidentity":
+            return linop.ScaledIdentity(2.5, shape, input_dtype=dt)
+        if k == "matrix_compose":
+            M = linop.MatrixOperator(jnp.asarray((np.arange(n * n).reshape(n, n) / 8).astype(dt)))
+            return M @ linop.CircularConvolve(hr, shape, input_dtype=dt)
+        if k == "fd":
+            return linop.FiniteDifference(shape, input_dtype=dt, circular=True)
+        if k == "sum":
+            return linop.Sum(shape, input_dtype=dt)
+        if k == "generic_matmul":
+            Mr = jnp.asarray(np.arange(n * n).reshape(n, n) / 8)
+            return linop.LinearOperator(shape, output_shape=shape, eval_fn=lambda x: Mr @ x, input_dtype=dt)
+        raise KeyError(k)
+    if name == "CalculusMixed":
+        from scico.operator import Abs, Operator
+
+        n = shape[0]
+        left = {
+            "matrix": lambda: linop.MatrixOperator(jnp.asarray((np.arange(n * n).reshape(n, n) / 8 - 0.5).astype(dt))),
+            "diagonal": lambda: linop.Diagonal(jnp.asarray(np.arange(1.0, n + 1).astype(dt))),
+            "identity": lambda: linop.Identity(shape, input_dtype=dt),
+            "circconv": lambda: linop.CircularConvolve(jnp.asarray(np.array([1.0, -0.5]).astype(dt)), shape, input_dtype=dt),
+            "fd": lambda: linop.SingleAxisFiniteDifference(shape, input_dtype=dt, axis=0, circular=True),
+            "generic": lambda: linop.LinearOperator(shape, output_shape=shape, eval_fn=lambda x: 2.0 * x, input_dtype=dt, output_dtype=dt),
+        }[c["left"]]()
+        F = Abs(input_shape=shape, input_dtype=dt)
+        o = c["op"]
+        if o == "add":
+            R = left + F
+        elif o == "sub":
+            R = left - F
+        elif o == "radd":
+            R = F + left
+        elif o == "rsub":
+            R = F - left
+        elif o == "compose":
+            R = left(F)
+        else:
+            R = F(left)
+        if not isinstance(R, linop.LinearOperator):
+            raise NotPresentedAsLinear(type(R).__name__)
+        return R
     if name == "GenericLinearOperator":
         k = c["kind"]
         if k == "roll":
@@ -195,8 +270,12 @@ def enumerate_ops(rng, thorough, per_class):
     for name in all_classes():
         cfgs = configs(name, rng)
         if not thorough and len(cfgs) > per_class:
-            sel = sorted(rng.choice(len(cfgs), size=per_class, replace=False).tolist())
-            cfgs = [cfgs[i] for i in sel]
+            sel = set(rng.choice(len(cfgs), size=per_class, replace=False).tolist())
+            # configurations the grid marks as indispensable (e.g. mixed real/complex dtypes) are always included
+            sel |= {i for i, c in enumerate(cfgs) if isinstance(c, dict) and c.get("must")}
+            if name in ("MixedDtype", "CalculusMixed", "Derived", "GenericLinearOperator"):
+                sel = set(range(len(cfgs)))  # small hand-made grids: always complete
+            cfgs = [cfgs[i] for i in sorted(sel)]
         for c in cfgs:
             try:
                 yield name, c, build(name, c)
